@@ -22,7 +22,7 @@ from ..harness import Evidence, run_pool, finish
 from ..hdr import dwarf_constants
 
 PID = "C17"
-RULE = ("locations: per generated file 40 location attributes, each an expression of 1-6 operations drawn from 60 opcodes of all "
+RULE = ("locations: per generated file 40 location attributes (all nine names decoded as locations: location, frame_base, return_addr, data_member_location, data_location, segment, static_link, use_location, vtable_elem_location), each an expression of 1-6 operations drawn from 60 opcodes of all "
         "operand classes, as exprloc/block or as a list of 0-5 (range, expression) entries; abbreviations: every DIE of generated "
         "forests (<= 8 units sharing tables) and of the sample binaries.  Non-trivial: an expression with >= 2 operations incl. a "
         "signed or two-operand one, a list with >= 2 ranges, an abbreviation table shared by >= 2 units or an indirect form.  "
@@ -142,7 +142,9 @@ class LocBuilder:
         for i in range(40):
             kind = rnd.choice(["expr", "expr", "list"])
             # DW_AT_data_member_location in a data form is a constant in DWARF 2/3, not a list pointer
-            at = rnd.choice(["location", "frame_base", "return_addr"] + (["data_member_location"] if kind == "expr" or self.v >= 4 else []))
+            # ("every location attribute": the nine names atval.cc decodes as location expressions)
+            at = rnd.choice(["location", "frame_base", "return_addr", "location", "data_location", "segment", "static_link", "use_location", "vtable_elem_location"]
+                            + (["data_member_location"] * 2 if kind == "expr" or self.v >= 4 else []))
             if kind == "expr":
                 expr, ops = self.expression()
                 form = "exprloc" if self.v >= 4 else rnd.choice(["block1", "block", "block2"])
@@ -248,6 +250,9 @@ def check_locs(drv, ev, f, secs, toff, cases, builder, rnd, version, recipe):
                         L, addr, length, elem, relem, offs, labels, values, epos, rpos = [x["e"] for x in row[-10:]]
                         lle = L[0]
                         exp = expected_values(ops, builder.base_type)
+                        if lle.get("t") != "lle" or "low" not in lle:
+                            bad = "`value` of the location attribute is not a location list element but %r" % ({k: v for k, v in lle.items() if k in ("t", "v", "x", "d")},)
+                            break
                         if lle["p"] != i:
                             bad = "element #%d has position %d" % (i, lle["p"])
                         elif (int(lle["low"]), int(lle["high"])) != (lo, hi):
